@@ -2,11 +2,43 @@
 BASE_OFF = "cd /repo && GOFLAGS=-mod=mod GOPROXY=off go test -mod=mod -json -vet=off -count=1 -timeout 25m ./..."
 
 ENGINES = [
+    dict(name="store", path="specs/Store.tla specs/Merkle.tla specs/StoreTrace.tla harness/areas/store harness/names checks/store_common.py",
+         serves_properties=["C01", "C04", "C07", "C08", "C14"],
+         kind_free_text="implementation-shaped spec of the SQLite processors and trees (frontier cache, rollback callbacks, never-cleaned node table); "
+                        "TLC exhaustive; edge-cover behaviours replayed into the real processors with SQL-trigger fault injection; named snapshots judged by TLC"),
     dict(name="epoch", path="specs/Epoch.tla specs/EpochTrace.tla harness/areas/epoch checks/C18.py", serves_properties=["C18"],
          kind_free_text="TLC exhaustive on the step-function spec; edge-cover behaviours replayed into the real notifier; TLC trace validation"),
 ]
 
+_STORE_TECH = "TLA+ model checking (TLC) of Store.tla + edge-cover behaviours replayed into the real SQLite store + TLC trace validation (StoreTrace.tla)"
+_STORE_NOTE = ("trusted: TLC; reference keccak Merkle tree / Solidity leaf packing in harness/names (names identify hashes); SQL-trigger fault "
+               "injector; bounds: H=3 and <= 7 leaves in the exhaustive model, real height 32 in replay")
+
 CHECKS = {
+    "C01": dict(engine="store", category="model_checking", design_ref="DESIGN.md section 5 C01", technique=_STORE_TECH, note=_STORE_NOTE,
+        text="TLC checks the append path exactly as coded (in-place frontier, initCache on index mismatch, restart) against 'root at deposit i = "
+             "reference root of the first i+1 leaves' for every partition of the deposits into blocks and every restart point; the edge cover is "
+             "replayed into the real bridge processor (deposits with all field classes) and every answer of GetExitRootByIndex / GetRootByLER / "
+             "GetBridges is named by an independent reference implementation and judged by TLC."),
+    "C04": dict(engine="store", category="model_checking", design_ref="DESIGN.md section 5 C04", technique=_STORE_TECH, note=_STORE_NOTE,
+        text="TLC explores histories x reorg points (incl. above the tip and at the first block) x nested reorgs x continuations on the spec whose "
+             "frontier and never-cleaned node table are part of the state; each behaviour is replayed into the real store and after every step "
+             "all named answers must be a function of the surviving history only, plus lock-step agreement of every exported query method with a "
+             "twin store that never saw the dropped blocks."),
+    "C07": dict(engine="store", category="model_checking", design_ref="DESIGN.md section 5 C07", technique=_STORE_TECH, note=_STORE_NOTE,
+        text="TLC explores a fault at each statement of the block transaction (statement abort, context cancellation, commit failure), restarts and "
+             "retries on the spec that models rollback callbacks as coded (it exhibits finding F1 with Fixed=FALSE); behaviours are replayed "
+             "into the real store with SQL-trigger fault injection and after the failed attempt and after the retry every named answer must equal "
+             "what the fault-free history implies."),
+    "C08": dict(engine="store", category="model_checking", design_ref="DESIGN.md section 5 C08", technique=_STORE_TECH, note=_STORE_NOTE,
+        text="For every state reached in the reorg and fault explorations TLC checks that the top-down walk over the node table yields, for every "
+             "recorded root and covered position, the reference siblings and leaf; on the real store GetProof is called for every (recorded root, "
+             "position) after every step and each sibling must carry the name of the reference sibling subtree."),
+    "C14": dict(engine="store", category="model_checking", design_ref="DESIGN.md section 5 C14", technique=_STORE_TECH, note=_STORE_NOTE,
+        text="TLC explores all ways to halt within the bounds, all reorg points and continuations; on the real store every exported method of the "
+             "facade (enumerated by reflection, small allow list of non-data methods) is called after every step: while the node has reported an "
+             "inconsistency every data method must answer the inconsistency error, no block may commit, and only a reorg that removes processed "
+             "blocks clears the condition."),
     "C18": dict(
         engine="epoch", category="model_checking", design_ref="DESIGN.md section 5 C18",
         text="TLC checks the step function as coded (Epoch.tla) against exactly-once-at-first-past-block for every configuration "
